@@ -58,7 +58,12 @@ for it in range(N):
     pert = run(kind, d2, extra, add2)
     evals += 1; distinct.add((kind, extra["lag"], extra["lookback"], extra["intpos"], extra["comm"]))
     a, b = snapshot(base, cut), snapshot(pert, cut)
-    bad = [k for k in a if a[k] != b.get(k)]
+    # a security created on first use after the cut exists in one run only: its records up to the cut are its untouched initial rows
+    def untouched(t, name, cut):
+        n = [m for m in t.strategy.members if m.full_name == name][0]
+        d = n.data.loc[:cut]
+        return all(float(np.nan_to_num(d[c].abs().sum())) == 0.0 for c in d.columns if c not in ("price",))
+    bad = [k for k in set(a) | set(b) if a.get(k) != b.get(k) and not ((k not in a and untouched(pert, k, cut)) or (k not in b and untouched(base, k, cut)))]
     if bad: fails.append(dict(clause="results-up-to-t-changed-when-later-data-changed", strategy=kind, cut=str(cut), nodes=bad[:4], params={k: int(v) for k, v in extra.items()}))
     if it < 2: samples.append(dict(strategy=kind, cut=str(cut.date()), nodes=len(a)))
 print("JSON:" + json.dumps(dict(evaluations=evals, distinct=len(distinct), failures=fails[:5], samples=samples,
